@@ -713,8 +713,12 @@ def r12(c):
         if ok:
             s0 = q.sem(p, new.args[0])
             ok = s0.kind == 'call' and s0.cs is reads[0] and s0.checked
-            cl = p.op_closure(new.args[1])
-            ok = ok and any(x[0] == 'call' and x[2] == reads[1].block for x in cl) and not any(x[0] == 'call' and x[2] == reads[0].block for x in cl)
+            def from_read(o, k, d=0):
+                v = q.sem(p, o)
+                if v.kind == 'call' and v.cs is reads[k]:
+                    return True
+                return v.kind == 'call' and d < 2 and bool(v.cs.args) and any(from_read(a, k, d + 1) for a in v.cs.args)       # coil_from_u16(second read)
+            ok = ok and from_read(new.args[1], 1) and not from_read(new.args[1], 0)
         c.ob('parse/Indexed<%s>' % ty, ok, 'Indexed<%s>::parse reads index first, value second' % ty, '', loc_of(p))
     n = P.fn('rodbus::types::Indexed::new')
     ag = [s for _, s in n.aggregates('rodbus::types::Indexed')]
